@@ -3,7 +3,7 @@
  "name": "allocate_group_table_charge",
  "props": ["C07"],
  "level": "U",
- "tier": "wip",
+ "tier": "quick",
  "harness": "h_allocate_group_table_charge",
  "replace": ["flexbg_offset"],
  "loop_contracts": true,
